@@ -254,3 +254,48 @@ func chain(steps ...func(*ctx) error) func(*ctx) error {
 		return nil
 	}
 }
+
+// e2SanFlags must equal wdrv.SanFlags.
+const e2SanFlags = "-g -O1 -fsanitize=address,undefined,bounds-strict -fno-sanitize=nonnull-attribute -fno-sanitize-recover=all -fno-omit-frame-pointer"
+
+// prepE2 builds the tools and compiles the base package (generated by the
+// tree's wuffs-c) once for all shards of an E2 campaign; cached by content.
+func prepE2(c *ctx) error {
+	if err := prepTools(c); err != nil {
+		return err
+	}
+	bin := filepath.Join(c.scratch, "bin")
+	out, err := runCmd(c.scratch, c.env, 5*time.Minute, filepath.Join(bin, "wuffs-c"), "gen", "-package_name", "base")
+	if err != nil {
+		return fmt.Errorf("wuffs-c gen -package_name base: %v\n%s", err, tail(string(out), 20))
+	}
+	baseC := filepath.Join(c.scratch, "wuffs-base.c")
+	if err := os.WriteFile(baseC, out, 0o644); err != nil {
+		return err
+	}
+	h := sha256.New()
+	h.Write(out)
+	h.Write([]byte(e2SanFlags))
+	key := hex.EncodeToString(h.Sum(nil))[:24]
+	cacheDir := filepath.Join(verifRoot, ".work", "cc")
+	os.MkdirAll(cacheDir, 0o755)
+	cached := filepath.Join(cacheDir, "e2base-"+key+".o")
+	dst := filepath.Join(c.scratch, "e2base-san.o")
+	if _, err := os.Stat(cached); err == nil {
+		if _, err := runCmd("/", c.env, time.Minute, "cp", cached, dst); err == nil {
+			c.env = append(c.env, "VERIF_E2_BASE_SAN="+dst)
+			return nil
+		}
+	}
+	args := append(strings.Fields(e2SanFlags), "-c", "-DWUFFS_IMPLEMENTATION", "-DWUFFS_CONFIG__MODULES", "-DWUFFS_CONFIG__MODULE__BASE", "-x", "c", baseC, "-o", dst)
+	if o, err := runCmd(c.scratch, c.env, 15*time.Minute, "gcc", args...); err != nil {
+		return fmt.Errorf("compiling the generated base package failed: %v\n%s", err, tail(string(o), 30))
+	}
+	tmp := cached + fmt.Sprintf(".tmp%d", os.Getpid())
+	if _, err := runCmd("/", c.env, time.Minute, "cp", dst, tmp); err == nil {
+		os.Rename(tmp, cached)
+	}
+	pruneCache(cacheDir, 12)
+	c.env = append(c.env, "VERIF_E2_BASE_SAN="+dst)
+	return nil
+}
